@@ -415,34 +415,42 @@ Proof.
   - destruct ST as [-> ->]. split; [|intros; discriminate]. exists th0, th1, x, k0. simpl. auto.
 Qed.
 
+Lemma dl_state_deadlocked :
+  match run_labels cfg_inverted dl_init dl_schedule with Some s => deadlocked s | None => False end.
+Proof. vm_compute. repeat eexists. Qed.
+
+Lemma deadlocked_forever : forall ls s0 s',
+  deadlocked s0 -> run_labels cfg_inverted s0 ls = Some s' ->
+  deadlocked s' /\ (forall t a, ~ In (LThread t a) ls).
+Proof.
+  induction ls; simpl; intros s0 s' D H.
+  - inversion H; subst. split; auto.
+  - destruct (step cfg_inverted s0 a) eqn:ST; try discriminate.
+    destruct (deadlocked_stuck _ _ _ D ST) as [D' NL]. destruct (IHls _ _ D' H) as [D'' NI].
+    split; auto. intros t b [->|I]; [eapply NL; eauto|eapply NI; eauto].
+Qed.
+
 Theorem deadlock_refuted_thm :
   exists s, reachable cfg_inverted s /\ deadlocked s /\
     forall ls s', run_labels cfg_inverted s ls = Some s' ->
       deadlocked s' /\ (forall t a, ~ In (LThread t a) ls).
 Proof.
-  destruct (run_labels cfg_inverted dl_init dl_schedule) as [s|] eqn:E; [|vm_compute in E; discriminate].
-  exists s. split; [|split].
+  pose proof dl_state_deadlocked as D.
+  destruct (run_labels cfg_inverted dl_init dl_schedule) as [s|] eqn:E; [|contradiction].
+  exists s. split; [|split; [exact D|]].
   - eapply run_labels_reachable; [apply reach_init|exact E].
-  - vm_compute in E. inversion E; subst. unfold deadlocked. simpl. repeat eexists.
-  - assert (G : forall ls s0 s', deadlocked s0 -> run_labels cfg_inverted s0 ls = Some s' ->
-                deadlocked s' /\ (forall t a, ~ In (LThread t a) ls)).
-    { induction ls; simpl; intros s0 s' D H.
-      - inversion H; subst. split; auto.
-      - destruct (step cfg_inverted s0 a) eqn:ST; try discriminate.
-        destruct (deadlocked_stuck _ _ _ D ST) as [D' NL]. destruct (IHls _ _ D' H) as [D'' NI].
-        split; auto. intros t b [->|I]; [eapply NL; eauto|eapply NI; eauto]. }
-    intros ls s' H. eapply G; eauto.
-    vm_compute in E. inversion E; subst. unfold deadlocked. simpl. repeat eexists.
+  - intros ls s' H. eapply deadlocked_forever; eauto.
 Qed.
 
 (* the same schedule on the fixed Begin: goroutine 1 waits for the session
    mutex before taking any other mutex, and goroutine 0 proceeds *)
+Definition fixed_schedule_props (s : state) : Prop :=
+  step cfg_fixed s (LThread 1 ATau) = None /\ emutex (st_g s) = None /\
+  exists s', step cfg_fixed s (LThread 0 ATau) = Some s'.
+
 Example fixed_schedule_proceeds :
-  exists s, run_labels cfg_fixed dl_init (firstn 16 dl_schedule) = Some s /\
-            step cfg_fixed s (LThread 1 ATau) = None /\
-            emutex (st_g s) = None /\ can_step cfg_fixed s 0.
-Proof.
-  destruct (run_labels cfg_fixed dl_init (firstn 16 dl_schedule)) as [s|] eqn:E; [|vm_compute in E; discriminate].
-  exists s. split; auto. vm_compute in E. inversion E; subst. split; [reflexivity|]. split; [reflexivity|].
-  unfold can_step. vm_compute. eexists. reflexivity.
-Qed.
+  match run_labels cfg_fixed dl_init (firstn 16 dl_schedule) with
+  | Some s => fixed_schedule_props s
+  | None => False
+  end.
+Proof. vm_compute. split; [reflexivity|split; [reflexivity|eexists; reflexivity]]. Qed.
